@@ -260,6 +260,8 @@ class Eval:
             r = self.apply_closure(args[1], [a0[2]])
             if r == ("pred", "samelabel"):
                 return ("opt", ("foundelem",))
+            # a search by anything else hands out a mutable element of self.terms we know nothing about
+            self.escapes.append("%s at %s" % (t.get("callee"), t.get("span")))
             return UNKNOWN
         if name in ("add_assign", "sub_assign") and len(args) == 2 and a0 == ("foundcoef",):
             x = args[1] if name == "add_assign" else sc_neg(args[1])
